@@ -3,9 +3,57 @@
    line, in the same format as the model driver mdrv.ml.
 
    Node identities are small integers: dlist nodes 1..n and slist objects 1,2 / nodes 3..n+2 are
-   slots of static arrays; queue objects are 1 (A) and 2 (B) and every block a_alloc hands out for
-   a node is named 3,4,5,... in allocation order (the name follows the block through realloc and
-   is retired by free).  Addresses are never printed; an address that has no name prints as '?'.
+   slots of static arrays (each node is a member of a larger structure, so that the a_list_entry /
+   a_slist_entry macros can be evaluated); queue objects are 1 (A) and 2 (B) and every block a_alloc
+   hands out for a node is named 3,4,5,... in allocation order (the name follows the block through
+   realloc and is retired by free).  Addresses are never printed; an address that has no name
+   prints as '?'.
+
+   Line format (identical in mdrv.ml):
+     dlist   header  L <i>:<next>,<prev> ...  w=<c>:<fwd>/<bwd> acc=<A>
+             op      ok <i>:<next>,<prev> ... w=<c>:<fwd>/<bwd> acc=<A>     | fault | dead
+                     w = the nodes a_list_foreach_next / a_list_foreach_prev visit from ctx = node c
+                     (c = first argument of the operation, node 1 in the header, "w=-" without nodes);
+                     a walk that does not come back to c prints BROKEN
+     slist   header  S 1:<next>,<tail> 2:<next>,<tail> <i>:<next> ... w=<l1>/<l2> acc=<A>
+             op      ok ... (the same)                                       | fault | dead
+                     w = the nodes a_slist_foreach visits on list 1 / list 2 (BROKEN: endless)
+     queue   header  Q A:n=,z=,m=,f=[..],b=[..],p=[..],e=<F>/<K> B:... v=[id:val,..] t=[requests] acc=<A>
+             op      r=<result> A:... B:... v=[..] t=[..] acc=<A>            | fault | dead
+                     e = node of a_que_fore_ / a_que_back_ where their precondition holds (ring not
+                     empty), '-' otherwise; the returned pointer must be exactly <block> + sizeof(a_list)
+     <A> is "ok" or "BAD:<function or macro>:<got>:<want>" (no blanks): the first accessor, alias,
+     iteration macro or allocation-ledger comparison that failed inside this driver on this line.
+
+   What is evaluated for <A> after EVERY line (first failure wins):
+     dlist  from every node as ctx: a_list_foreach_next/prev, A_LIST_FOREACH_NEXT/PREV,
+            a_list_forsafe_next/prev, A_LIST_FORSAFE_NEXT/PREV against a walk over the fields (the
+            forsafe variants also: at == it->next / it->prev in every round); a_list_entry,
+            a_list_entry_next, a_list_entry_prev of every node against the array slot.
+            Header: nodes are constructed in turn by a_list_ctor, a_list_init, a_list_dtor and the
+            A_LIST_INIT initializer (each checked at once: next == prev == the node); the four forsafe
+            macros run once on a scratch ring while the body unlinks the visited node (by hand).
+            Operations ctor / dtor call a_list_ctor / a_list_dtor (init: a_list_init).
+     slist  on both lists: a_slist_foreach, A_SLIST_FOREACH, a_slist_forsafe, A_SLIST_FORSAFE
+            against a walk over the fields (forsafe: at->next == it); a_slist_entry / a_slist_entry_next.
+            Header: list 1 by a_slist_ctor, list 2 by the A_SLIST_INIT initializer, nodes by
+            A_SLIST_NODE (each checked at once); both forsafe macros run once on a scratch list while
+            the body deletes the visited node (by hand).  Operations init / dtor / link call a_slist_init / a_slist_dtor / a_slist_link.
+     queue  on both queues while their rings are intact: a_que_fore, a_que_back, A_QUE_FORE, A_QUE_BACK,
+            a_que_fore_, a_que_back_, A_QUE_FORE_, A_QUE_BACK_ (non-empty only), a_que_at / A_QUE_AT at
+            0 and -1, a_que_num, a_que_siz against the fields / the walked ring; a_que_foreach,
+            A_QUE_FOREACH, a_que_foreach_reverse, A_QUE_FOREACH_REVERSE against the walked ring;
+            allocation ledger: live node blocks = num_ + cur_ of both queues, live pool arrays = the
+            ptr_ fields, one live a_que structure (B).
+            Queue A lives in static storage (a_que_ctor / a_que_dtor), queue B on the heap
+            (a_que_new / a_que_die; reset B = a_que_die + a_que_new; the request for the structure is
+            answered by the driver itself, outside schedule and trace).  Every second reset passes a
+            counting element destructor.  Header: a_que_new under a refused request must return NULL,
+            a_que_die(NULL) must be harmless; the A_QUE_FOREACH macros run once on a scratch queue
+            while the body removes the visited element.
+            Every second queue operation goes through the typed alias macro (A_QUE_PUSH_FORE, ...,
+            A_QUE_PULL_BACK, A_QUE_INSERT, A_QUE_REMOVE, A_QUE_AT, A_QUE_FORE, A_QUE_BACK,
+            A_QUE_PUSH_SORT) instead of the function.
 
    After a broken ring has been seen in a queue history the rest of that history is skipped
    ("dead"), so that a defect cannot make the driver loop or touch freed memory. */
@@ -18,17 +66,57 @@
 
 #define MAXN 64
 
-/* ------------------------------------------------------------------ dlist */
-static a_list lnode[MAXN + 1];
-static int ln;
+/* ------------------------------------------------------------------ accessor verdict */
+static char acc[200];
 
-static int lid(a_list const *p)
+static void seq_str(char *dst, size_t cap, int const *ids, int n)
 {
-    if (p >= lnode + 1 && p <= lnode + ln && ((char const *)p - (char const *)lnode) % sizeof(a_list) == 0)
+    size_t k = 0;
+    int i;
+    if (n < 0)
     {
-        return (int)(p - lnode);
+        snprintf(dst, cap, "BROKEN");
+        return;
     }
-    return -1;
+    dst[k++] = '[';
+    for (i = 0; i < n && k + 16 < cap; ++i)
+    {
+        if (ids[i] < 0) { k += (size_t)snprintf(dst + k, cap - k, "%s?", i ? "," : ""); }
+        else { k += (size_t)snprintf(dst + k, cap - k, "%s%d", i ? "," : "", ids[i]); }
+    }
+    dst[k++] = ']';
+    dst[k] = 0;
+}
+
+static void bad(char const *fn, long got, long want)
+{
+    if (!acc[0]) { snprintf(acc, sizeof(acc), "BAD:%s:%ld:%ld", fn, got, want); }
+}
+
+static void bad_seq(char const *fn, int ctx, int const *got, int ngot, int const *want, int nwant)
+{
+    char g[64], w[64];
+    if (acc[0]) { return; }
+    seq_str(g, sizeof(g), got, ngot);
+    seq_str(w, sizeof(w), want, nwant);
+    snprintf(acc, sizeof(acc), "BAD:%s:%d%s:%s", fn, ctx, g, w);
+}
+
+static int same_seq(int const *a, int na, int const *b, int nb)
+{
+    int i;
+    if (na != nb) { return 0; }
+    for (i = 0; i < na; ++i)
+    {
+        if (a[i] != b[i]) { return 0; }
+    }
+    return 1;
+}
+
+static void put_acc(void)
+{
+    printf(" acc=%s\n", acc[0] ? acc : "ok");
+    acc[0] = 0;
 }
 
 static void pid_(int id)
@@ -37,20 +125,212 @@ static void pid_(int id)
     else { printf("%d", id); }
 }
 
-static void dump_l(void)
+static void put_seq(int const *ids, int n)
+{
+    char s[16 * (MAXN + 4)];
+    seq_str(s, sizeof(s), ids, n);
+    fputs(s, stdout);
+}
+
+/* ------------------------------------------------------------------ dlist */
+struct lobj
+{
+    long tag;
+    a_list node;
+};
+static struct lobj lobj[MAXN + 1];
+static int ln;
+
+static int lid(a_list const *p)
+{
+    a_uptr const base = (a_uptr)&lobj[0].node, x = (a_uptr)p;
+    if (x >= base && (x - base) % sizeof(struct lobj) == 0)
+    {
+        a_uptr const i = (x - base) / sizeof(struct lobj);
+        if (i >= 1 && i <= (a_uptr)ln) { return (int)i; }
+    }
+    return -1;
+}
+
+/* walk over the fields; -1: the walk does not come back to ctx (more than ln-1 other nodes) */
+static int walk_l(a_list const *ctx, int fwd, int *ids)
+{
+    a_list const *it = fwd ? ctx->next : ctx->prev;
+    int n = 0;
+    while (it != ctx)
+    {
+        if (n >= ln - 1) { return -1; }
+        ids[n++] = lid(it);
+        it = fwd ? it->next : it->prev;
+    }
+    return n;
+}
+
+#define L_BODY(buf, cnt, it)  \
+    if ((cnt) >= ln - 1)      \
+    {                         \
+        (cnt) = -1;           \
+        break;                \
+    }                         \
+    (buf)[(cnt)++] = lid(it)
+
+/* the eight iteration macros from ctx; which: 0..3 next variants, 4..7 prev variants */
+static int macro_l(a_list *ctx, int which, int *ids)
+{
+    int n = 0, okat = 1;
+    a_list *it_, *at_;
+    switch (which)
+    {
+    case 0:
+        a_list_foreach_next(it, ctx) { L_BODY(ids, n, it); }
+        break;
+    case 1:
+        A_LIST_FOREACH_NEXT(it_, ctx) { L_BODY(ids, n, it_); }
+        break;
+    case 2:
+        a_list_forsafe_next(it, at, ctx)
+        {
+            if (at != it->next) { okat = 0; }
+            L_BODY(ids, n, it);
+        }
+        break;
+    case 3:
+        A_LIST_FORSAFE_NEXT(it_, at_, ctx)
+        {
+            if (at_ != it_->next) { okat = 0; }
+            L_BODY(ids, n, it_);
+        }
+        break;
+    case 4:
+        a_list_foreach_prev(it, ctx) { L_BODY(ids, n, it); }
+        break;
+    case 5:
+        A_LIST_FOREACH_PREV(it_, ctx) { L_BODY(ids, n, it_); }
+        break;
+    case 6:
+        a_list_forsafe_prev(it, at, ctx)
+        {
+            if (at != it->prev) { okat = 0; }
+            L_BODY(ids, n, it);
+        }
+        break;
+    default:
+        A_LIST_FORSAFE_PREV(it_, at_, ctx)
+        {
+            if (at_ != it_->prev) { okat = 0; }
+            L_BODY(ids, n, it_);
+        }
+        break;
+    }
+    return okat ? n : -2;
+}
+
+static char const *const lmacro[8] = {"a_list_foreach_next", "A_LIST_FOREACH_NEXT", "a_list_forsafe_next", "A_LIST_FORSAFE_NEXT",
+                                      "a_list_foreach_prev", "A_LIST_FOREACH_PREV", "a_list_forsafe_prev", "A_LIST_FORSAFE_PREV"};
+
+static void acc_l(void)
+{
+    int c, k;
+    static int want[MAXN + 2], got[MAXN + 2];
+    for (c = 1; c <= ln; ++c)
+    {
+        a_list *const ctx = &lobj[c].node;
+        for (k = 0; k < 8; ++k)
+        {
+            int const nw = walk_l(ctx, k < 4, want);
+            int const ng = macro_l(ctx, k, got);
+            if (ng == -2) { bad(lmacro[k], c, -2); }
+            else if (!same_seq(got, ng, want, nw)) { bad_seq(lmacro[k], c, got, ng, want, nw); }
+        }
+        if ((void *)a_list_entry(ctx, struct lobj, node) != (void *)&lobj[c]) { bad("a_list_entry", c, 0); }
+        k = lid(ctx->next);
+        if (k > 0 && (void *)a_list_entry_next(ctx, struct lobj, node) != (void *)&lobj[k]) { bad("a_list_entry_next", c, k); }
+        k = lid(ctx->prev);
+        if (k > 0 && (void *)a_list_entry_prev(ctx, struct lobj, node) != (void *)&lobj[k]) { bad("a_list_entry_prev", c, k); }
+    }
+}
+
+/* the forsafe macros while the body takes the visited node off the ring */
+static void selftest_l(void)
+{
+    int k, i;
+    for (k = 0; k < 4; ++k)
+    {
+        struct lobj o[4];
+        int seen[8], n = 0, okseq = 1;
+        a_list *it_, *at_;
+        a_list *const head = &o[0].node;
+        /* the ring head-1-2-3 and the removal are written out by hand: only the macro is under test */
+        for (i = 0; i < 4; ++i)
+        {
+            o[i].tag = i;
+            o[i].node.next = &o[(i + 1) & 3].node;
+            o[i].node.prev = &o[(i + 3) & 3].node;
+        }
+#define T_BODY(it)                                                      \
+    if (n >= 6) { break; }                                              \
+    seen[n++] = (int)(((char *)(it) - (char *)&o[0].node) / (long)sizeof(struct lobj)); \
+    (it)->prev->next = (it)->next;                                      \
+    (it)->next->prev = (it)->prev;                                      \
+    (it)->next = (it)->prev = (it)
+        switch (k)
+        {
+        case 0:
+            a_list_forsafe_next(it, at, head) { T_BODY(it); }
+            break;
+        case 1:
+            A_LIST_FORSAFE_NEXT(it_, at_, head) { T_BODY(it_); }
+            break;
+        case 2:
+            a_list_forsafe_prev(it, at, head) { T_BODY(it); }
+            break;
+        default:
+            A_LIST_FORSAFE_PREV(it_, at_, head) { T_BODY(it_); }
+            break;
+        }
+#undef T_BODY
+        for (i = 0; i < 3; ++i)
+        {
+            if (n != 3 || seen[i] != (k < 2 ? i + 1 : 3 - i)) { okseq = 0; }
+        }
+        if (!okseq || head->next != head || head->prev != head) { bad(lmacro[k < 2 ? 2 + k : 4 + k], -n, 3); }
+    }
+}
+
+/* the w= token: what a_list_foreach_next / a_list_foreach_prev visit from node c */
+static void put_w_l(int c)
+{
+    static int ids[MAXN + 2];
+    int n;
+    if (c < 1 || c > ln)
+    {
+        printf(" w=-");
+        return;
+    }
+    printf(" w=%d:", c);
+    n = macro_l(&lobj[c].node, 0, ids);
+    put_seq(ids, n);
+    (void)putchar('/');
+    n = macro_l(&lobj[c].node, 4, ids);
+    put_seq(ids, n);
+}
+
+static void dump_l(int c)
 {
     int i;
     for (i = 1; i <= ln; ++i)
     {
         printf(" %d:", i);
-        pid_(lid(lnode[i].next));
+        pid_(lid(lobj[i].node.next));
         (void)putchar(',');
-        pid_(lid(lnode[i].prev));
+        pid_(lid(lobj[i].node.prev));
     }
-    (void)putchar('\n');
+    put_w_l(c);
+    acc_l();
+    put_acc();
 }
 
-#define LN(k) (&lnode[a[k]])
+#define LN(k) (&lobj[a[k]].node)
 
 static int run_l(char const *op, int const *a, int n)
 {
@@ -60,6 +340,8 @@ static int run_l(char const *op, int const *a, int n)
         if (a[i] < 1 || a[i] > ln) { return 0; }
     }
     if (!strcmp(op, "init") && n == 1) { a_list_init(LN(0)); }
+    else if (!strcmp(op, "ctor") && n == 1) { a_list_ctor(LN(0)); }
+    else if (!strcmp(op, "dtor") && n == 1) { a_list_dtor(LN(0)); }
     else if (!strcmp(op, "link") && n == 2) { a_list_link(LN(0), LN(1)); }
     else if (!strcmp(op, "loop") && n == 2) { a_list_loop(LN(0), LN(1)); }
     else if (!strcmp(op, "add_") && n == 4) { a_list_add_(LN(0), LN(1), LN(2), LN(3)); }
@@ -82,20 +364,61 @@ static int run_l(char const *op, int const *a, int n)
     return 1;
 }
 
+static void begin_l(void)
+{
+    int i;
+    for (i = 1; i <= ln; ++i)
+    {
+        lobj[i].tag = i;
+        lobj[i].node.next = lobj[i].node.prev = A_NULL;
+        switch (i & 3)
+        {
+        case 1:
+            a_list_ctor(&lobj[i].node);
+            break;
+        case 2:
+            a_list_init(&lobj[i].node);
+            break;
+        case 3:
+            a_list_dtor(&lobj[i].node);
+            break;
+        default:
+        {
+            a_list const tmp = A_LIST_INIT(lobj[i].node);
+            lobj[i].node = tmp;
+        }
+        break;
+        }
+        if (lobj[i].node.next != &lobj[i].node || lobj[i].node.prev != &lobj[i].node)
+        {
+            static char const *const how[4] = {"A_LIST_INIT", "a_list_ctor", "a_list_init", "a_list_dtor"};
+            bad(how[i & 3], lid(lobj[i].node.next) * 100 + lid(lobj[i].node.prev), i * 100 + i);
+        }
+    }
+    selftest_l();
+}
+
 /* ------------------------------------------------------------------ slist */
+struct sobj
+{
+    long tag;
+    a_slist_node node;
+};
 static a_slist slist[3];
-static a_slist_node snode[MAXN + 3];
+static struct sobj sobj[MAXN + 3];
 static int sn;
 
 /* address -> name: list objects (their embedded head) 1,2; nodes 3..sn+2; NULL 0 */
 static int sid(a_slist_node const *p)
 {
+    a_uptr const base = (a_uptr)&sobj[0].node, x = (a_uptr)p;
     if (!p) { return 0; }
     if (p == &slist[1].head) { return 1; }
     if (p == &slist[2].head) { return 2; }
-    if (p >= snode + 3 && p <= snode + sn + 2 && ((char const *)p - (char const *)snode) % sizeof(a_slist_node) == 0)
+    if (x >= base && (x - base) % sizeof(struct sobj) == 0)
     {
-        return (int)(p - snode);
+        a_uptr const i = (x - base) / sizeof(struct sobj);
+        if (i >= 3 && i <= (a_uptr)sn + 2) { return (int)i; }
     }
     return -1;
 }
@@ -103,12 +426,131 @@ static int sid(a_slist_node const *p)
 static a_slist_node *sptr(int id)
 {
     if (id == 1 || id == 2) { return &slist[id].head; }
-    return &snode[id];
+    return a_slist_(*, &sobj[id].node);
+}
+
+/* walk over the fields; -1: more than sn+2 nodes, the chain is endless */
+static int walk_s(a_slist const *l, int *ids)
+{
+    a_slist_node const *it = l->head.next;
+    int n = 0;
+    while (it)
+    {
+        if (n >= sn + 2) { return -1; }
+        ids[n++] = sid(it);
+        it = it->next;
+    }
+    return n;
+}
+
+#define S_BODY(buf, cnt, it)  \
+    if ((cnt) >= sn + 2)      \
+    {                         \
+        (cnt) = -1;           \
+        break;                \
+    }                         \
+    (buf)[(cnt)++] = sid(it)
+
+static int macro_s(a_slist *l, int which, int *ids)
+{
+    int n = 0, okat = 1;
+    a_slist_node *it_, *at_;
+    switch (which)
+    {
+    case 0:
+        a_slist_foreach(it, l) { S_BODY(ids, n, it); }
+        break;
+    case 1:
+        A_SLIST_FOREACH(it_, l) { S_BODY(ids, n, it_); }
+        break;
+    case 2:
+        a_slist_forsafe(it, at, l)
+        {
+            if (at->next != it) { okat = 0; }
+            S_BODY(ids, n, it);
+        }
+        break;
+    default:
+        A_SLIST_FORSAFE(it_, at_, l)
+        {
+            if (at_->next != it_) { okat = 0; }
+            S_BODY(ids, n, it_);
+        }
+        break;
+    }
+    return okat ? n : -2;
+}
+
+static char const *const smacro[4] = {"a_slist_foreach", "A_SLIST_FOREACH", "a_slist_forsafe", "A_SLIST_FORSAFE"};
+
+static void acc_s(void)
+{
+    static int want[MAXN + 4], got[MAXN + 4];
+    int l, k, i;
+    for (l = 1; l <= 2; ++l)
+    {
+        int const nw = walk_s(&slist[l], want);
+        for (k = 0; k < 4; ++k)
+        {
+            int const ng = macro_s(&slist[l], k, got);
+            if (ng == -2) { bad(smacro[k], l, -2); }
+            else if (!same_seq(got, ng, want, nw)) { bad_seq(smacro[k], l, got, ng, want, nw); }
+        }
+    }
+    for (i = 3; i <= sn + 2; ++i)
+    {
+        a_slist_node *const p = &sobj[i].node;
+        if ((void *)a_slist_entry(p, struct sobj, node) != (void *)&sobj[i]) { bad("a_slist_entry", i, 0); }
+        k = sid(p->next);
+        if (k >= 3 && (void *)a_slist_entry_next(p, struct sobj, node) != (void *)&sobj[k]) { bad("a_slist_entry_next", i, k); }
+    }
+}
+
+/* the forsafe macros while the body deletes the visited node (protocol: delete behind `at`, clear `it`) */
+static void selftest_s(void)
+{
+    int k, i;
+    for (k = 0; k < 2; ++k)
+    {
+        a_slist l;
+        struct sobj o[4];
+        int seen[8], n = 0, okseq = 1;
+        a_slist_node *it_, *at_;
+        /* the list 1-2-3 and the deletion are written out by hand: only the macro is under test */
+        for (i = 1; i < 4; ++i)
+        {
+            o[i].tag = i;
+            o[i].node.next = i < 3 ? &o[i + 1].node : A_NULL;
+        }
+        l.head.next = &o[1].node;
+        l.tail = &o[3].node;
+#define T_BODY(it, at)                                                   \
+    if (n >= 6) { break; }                                               \
+    seen[n++] = (int)(((char *)(it) - (char *)&o[0].node) / (long)sizeof(struct sobj)); \
+    (at)->next = (it)->next;                                             \
+    if (!(it)->next) { l.tail = (at); }                                  \
+    it = A_NULL
+        if (k == 0)
+        {
+            a_slist_forsafe(it, at, &l) { T_BODY(it, at); }
+        }
+        else
+        {
+            A_SLIST_FORSAFE(it_, at_, &l) { T_BODY(it_, at_); }
+        }
+#undef T_BODY
+        for (i = 0; i < 3; ++i)
+        {
+            if (n != 3 || seen[i] != i + 1) { okseq = 0; }
+        }
+        if (!okseq || l.head.next || l.tail != &l.head) { bad(smacro[2 + k], -n, 3); }
+    }
 }
 
 static void dump_s(void)
 {
-    int i;
+    static int ids[MAXN + 4];
+    int i, n;
     for (i = 1; i <= 2; ++i)
     {
         printf(" %d:", i);
@@ -119,9 +561,16 @@ static void dump_s(void)
     for (i = 3; i <= sn + 2; ++i)
     {
         printf(" %d:", i);
-        pid_(sid(snode[i].next));
+        pid_(sid(sobj[i].node.next));
     }
-    (void)putchar('\n');
+    printf(" w=");
+    n = macro_s(&slist[1], 0, ids);
+    put_seq(ids, n);
+    (void)putchar('/');
+    n = macro_s(&slist[2], 0, ids);
+    put_seq(ids, n);
+    acc_s();
+    put_acc();
 }
 
 static int run_s(char const *op, int const *a, int n)
@@ -131,8 +580,15 @@ static int run_s(char const *op, int const *a, int n)
     {
         if (a[i] < 1 || a[i] > sn + 2) { return 0; }
     }
+    if (!strcmp(op, "link") && n == 2)
+    {
+        a_slist_link(sptr(a[0]), sptr(a[1]));
+        return 1;
+    }
     if (a[0] > 2) { return 0; } /* first argument is always a list object */
     if (!strcmp(op, "ctor") && n == 1) { a_slist_ctor(&slist[a[0]]); }
+    else if (!strcmp(op, "init") && n == 1) { a_slist_init(&slist[a[0]]); }
+    else if (!strcmp(op, "dtor") && n == 1) { a_slist_dtor(&slist[a[0]]); }
     else if (!strcmp(op, "add") && n == 3 && a[2] > 2) { a_slist_add(&slist[a[0]], sptr(a[1]), sptr(a[2])); }
     else if (!strcmp(op, "add_head") && n == 2 && a[1] > 2) { a_slist_add_head(&slist[a[0]], sptr(a[1])); }
     else if (!strcmp(op, "add_tail") && n == 2 && a[1] > 2) { a_slist_add_tail(&slist[a[0]], sptr(a[1])); }
@@ -144,6 +600,27 @@ static int run_s(char const *op, int const *a, int n)
     return 1;
 }
 
+static void begin_s(void)
+{
+    int i;
+    a_slist const tmp = A_SLIST_INIT(slist[2]);
+    slist[1].head.next = &slist[1].head; /* garbage for the constructor to overwrite */
+    slist[1].tail = A_NULL;
+    a_slist_ctor(&slist[1]);
+    slist[2] = tmp;
+    if (slist[1].head.next || slist[1].tail != &slist[1].head) { bad("a_slist_ctor", sid(slist[1].tail), 1); }
+    if (slist[2].head.next || slist[2].tail != &slist[2].head) { bad("A_SLIST_INIT", sid(slist[2].tail), 2); }
+    for (i = 3; i <= sn + 2; ++i)
+    {
+        a_slist_node const nn = A_SLIST_NODE;
+        sobj[i].tag = i;
+        sobj[i].node.next = &sobj[i].node;
+        sobj[i].node = nn;
+        if (sobj[i].node.next) { bad("A_SLIST_NODE", sid(sobj[i].node.next), 0); }
+    }
+    selftest_s();
+}
+
 /* ------------------------------------------------------------------ queue */
 #define MAXB 4096
 static struct
@@ -152,11 +629,23 @@ static struct
     int id;
 } blk[MAXB];
 static int nblk, next_id;
+static void *parr[16]; /* live pool arrays */
+static int nparr;
+static void *sblk[16]; /* live a_que structures */
+static int nsblk, struct_frees;
+static void *last_struct_freed;
 static int sched[256], nsched, isched;
 static char trace[4096];
-static int expect_node; /* the running operation is one that calls a_que_new_ */
-static a_que que[2];
+static int expect_node;   /* the running operation is one that calls a_que_new_ */
+static int expect_struct; /* the running call is a_que_new: the request is for the structure */
+static int force_fail;    /* refuse the request for the structure */
+static a_que que0;
+static a_que *que[2];
 static int que_live;
+static unsigned long opno;
+static int dtor_calls, dtor_bad;
+static char fn_buf[48] = "a_que_ctor";
+static char const *cur_fn = fn_buf;
 
 static int bfind(void const *p)
 {
@@ -171,8 +660,8 @@ static int bfind(void const *p)
 static int qid(a_list const *p)
 {
     int i;
-    if (p == &que[0].head_) { return 1; }
-    if (p == &que[1].head_) { return 2; }
+    if (p == &que[0]->head_) { return 1; }
+    if (p == &que[1]->head_) { return 2; }
     i = bfind(p);
     return i < 0 ? -1 : blk[i].id;
 }
@@ -198,9 +687,36 @@ static void *shim(void *addr, a_size size)
         {
             i = bfind(addr);
             if (i >= 0) { blk[i] = blk[--nblk]; }
+            for (i = 0; i < nparr; ++i)
+            {
+                if (parr[i] == addr)
+                {
+                    parr[i] = parr[--nparr];
+                    break;
+                }
+            }
+            for (i = 0; i < nsblk; ++i)
+            {
+                if (sblk[i] == addr)
+                {
+                    sblk[i] = sblk[--nsblk];
+                    ++struct_frees;
+                    last_struct_freed = addr;
+                    break;
+                }
+            }
             free(addr);
         }
         return A_NULL;
+    }
+    if (expect_struct)
+    {
+        /* the a_que structure of a_que_new: answered outside schedule and trace */
+        if (force_fail || addr || nsblk >= 16) { return A_NULL; }
+        p = malloc(size);
+        if (!p) { abort(); }
+        sblk[nsblk++] = p;
+        return p;
     }
     ok = isched < nsched ? sched[isched++] : 1;
     i = addr ? bfind(addr) : -1;
@@ -218,6 +734,15 @@ static void *shim(void *addr, a_size size)
         ++nblk;
     }
     else if (kind == 'R') { blk[i].addr = p; }
+    else
+    {
+        for (i = 0; i < nparr; ++i)
+        {
+            if (parr[i] == addr && addr) { break; }
+        }
+        if (i < nparr) { parr[i] = p; }
+        else if (nparr < 16) { parr[nparr++] = p; }
+    }
     return p;
 }
 
@@ -238,13 +763,128 @@ static int walk(a_que const *q, int fwd, int *ids, int *cnt)
     return 1;
 }
 
+static long ret_id(void *p)
+{
+    if (!p) { return 0; }
+    return qid(a_list_(*, p) - 1);
+}
+
+#define Q_BODY(buf, cnt, it)          \
+    if ((cnt) > nblk)                 \
+    {                                 \
+        (cnt) = -1;                   \
+        break;                        \
+    }                                 \
+    (buf)[(cnt)++] = (int)ret_id(it)
+
+static char const *const qmacro[4] = {"a_que_foreach", "A_QUE_FOREACH", "a_que_foreach_reverse", "A_QUE_FOREACH_REVERSE"};
+
+static int macro_q(a_que *q, int which, int *ids)
+{
+    int n = 0;
+    unsigned char *it_, *at_;
+    switch (which)
+    {
+    case 0:
+        a_que_foreach(unsigned char, *, it, q) { Q_BODY(ids, n, it); }
+        break;
+    case 1:
+        A_QUE_FOREACH(unsigned char *, it_, at_, q) { Q_BODY(ids, n, it_); }
+        break;
+    case 2:
+        a_que_foreach_reverse(unsigned char, *, it, q) { Q_BODY(ids, n, it); }
+        break;
+    default:
+        A_QUE_FOREACH_REVERSE(unsigned char *, it_, at_, q) { Q_BODY(ids, n, it_); }
+        break;
+    }
+    return n;
+}
+
+/* accessors and iteration macros of one queue whose ring was walked as f (forwards) / b (backwards) */
+static void acc_q(a_que *q, int s, int const *f, int nf, int const *b, int nb)
+{
+    static int got[MAXB + 4];
+    void *const fo = a_que_fore(q), *const ba = a_que_back(q);
+    long const wf = nf ? f[0] : 0, wb = nb ? b[0] : 0;
+    int k;
+    if (q->head_.next != &q->head_)
+    {
+        void *const p = a_que_fore_(q);
+        if (ret_id(p) != wf) { bad("a_que_fore_", ret_id(p), wf); }
+        if ((void *)A_QUE_FORE_(unsigned char, q) != p) { bad("A_QUE_FORE_", s, 0); }
+    }
+    if (q->head_.prev != &q->head_)
+    {
+        void *const p = a_que_back_(q);
+        if (ret_id(p) != wb) { bad("a_que_back_", ret_id(p), wb); }
+        if ((void *)A_QUE_BACK_(unsigned char, q) != p) { bad("A_QUE_BACK_", s, 0); }
+    }
+    if (ret_id(fo) != wf) { bad("a_que_fore", ret_id(fo), wf); }
+    if (ret_id(ba) != wb) { bad("a_que_back", ret_id(ba), wb); }
+    if ((void *)A_QUE_FORE(unsigned char, q) != fo) { bad("A_QUE_FORE", s, 0); }
+    if ((void *)A_QUE_BACK(unsigned char, q) != ba) { bad("A_QUE_BACK", s, 0); }
+    if (ret_id(a_que_at(q, 0)) != wf) { bad("a_que_at", ret_id(a_que_at(q, 0)), wf); }
+    if (ret_id(a_que_at(q, -1)) != wb) { bad("a_que_at", ret_id(a_que_at(q, -1)), wb); }
+    if (ret_id(A_QUE_AT(unsigned char, q, 0)) != wf) { bad("A_QUE_AT", ret_id(A_QUE_AT(unsigned char, q, 0)), wf); }
+    if (ret_id(A_QUE_AT(unsigned char, q, -1)) != wb) { bad("A_QUE_AT", ret_id(A_QUE_AT(unsigned char, q, -1)), wb); }
+    if (a_que_num(q) != q->num_) { bad("a_que_num", (long)a_que_num(q), (long)q->num_); }
+    if (a_que_siz(q) != q->siz_) { bad("a_que_siz", (long)a_que_siz(q), (long)q->siz_); }
+    for (k = 0; k < 4; ++k)
+    {
+        int const ng = macro_q(q, k, got);
+        if (k < 2 ? !same_seq(got, ng, f, nf) : !same_seq(got, ng, b, nb))
+        {
+            bad_seq(qmacro[k], s + 1, got, ng, k < 2 ? f : b, k < 2 ? nf : nb);
+        }
+    }
+}
+
+/* allocation ledger: every live block is accounted for by the two queues */
+static void acc_ledger(void)
+{
+    long want = 0, arrays = 0;
+    int s, i;
+    for (s = 0; s < 2; ++s)
+    {
+        want += (long)que[s]->num_ + (long)que[s]->cur_;
+        if (que[s]->ptr_)
+        {
+            ++arrays;
+            for (i = 0; i < nparr; ++i)
+            {
+                if (parr[i] == (void *)que[s]->ptr_) { break; }
+            }
+            if (i >= nparr) { bad(cur_fn, -1, s); } /* ptr_ is not a live pool array */
+        }
+    }
+    if (nblk != want)
+    {
+        char fn[64];
+        snprintf(fn, sizeof(fn), "%s:live-nodes", cur_fn);
+        bad(fn, nblk, want);
+    }
+    if (nparr != arrays)
+    {
+        char fn[64];
+        snprintf(fn, sizeof(fn), "%s:live-pool-arrays", cur_fn);
+        bad(fn, nparr, arrays);
+    }
+    if (nsblk != 1 || sblk[0] != (void *)que[1])
+    {
+        char fn[64];
+        snprintf(fn, sizeof(fn), "%s:live-structures", cur_fn);
+        bad(fn, nsblk, 1);
+    }
+}
+
 static int dump_q(void)
 {
     static int f[MAXB + 2], b[MAXB + 2], all[2 * MAXB + 4];
     int s, i, nall = 0, good = 1;
     for (s = 0; s < 2; ++s)
     {
-        a_que const *q = &que[s];
+        a_que *q = que[s];
         int nf = 0, nb = 0;
         int const okf = walk(q, 1, f, &nf), okb = walk(q, 0, b, &nb);
         printf(" %c:n=%lu,z=%lu,m=%lu,f=", s ? 'B' : 'A', (unsigned long)a_que_num(q),
@@ -284,7 +924,13 @@ static int dump_q(void)
             pid_(id);
             if (i) { (void)putchar(','); }
         }
-        (void)putchar(']');
+        printf("],e=");
+        if (q->head_.next != &q->head_) { pid_((int)ret_id(a_que_fore_(q))); }
+        else { (void)putchar('-'); }
+        (void)putchar('/');
+        if (q->head_.prev != &q->head_) { pid_((int)ret_id(a_que_back_(q))); }
+        else { (void)putchar('-'); }
+        if (okf && okb) { acc_q(q, s, f, nf, b, nb); }
     }
     printf(" v=[");
     for (i = 0; i < nall; ++i)
@@ -292,7 +938,9 @@ static int dump_q(void)
         a_list *p = qptr(all[i]);
         printf("%s%d:%d", i ? "," : "", all[i], p ? (int)*(unsigned char *)(p + 1) : -1);
     }
-    printf("] t=[%s]\n", trace);
+    printf("] t=[%s]", trace);
+    if (good) { acc_ledger(); }
+    put_acc();
     return good;
 }
 
@@ -313,20 +961,39 @@ static void put(void *p, long v)
     if (p) { *(unsigned char *)p = (unsigned char)v; }
 }
 
-static long ret_id(void *p)
+/* element destructor handed to a_que_dtor / a_que_die on every second reset */
+static void count_dtor(void *p)
 {
-    if (!p) { return 0; }
-    return qid((a_list *)p - 1);
+    ++dtor_calls;
+    if (ret_id(p) < 3) { ++dtor_bad; }
+}
+
+static a_que *new_que(a_size size)
+{
+    a_que *q;
+    expect_struct = 1;
+    q = a_que_new(size);
+    expect_struct = 0;
+    if (!q) { abort(); }
+    if (q->siz_ != (size ? size : 1) || q->num_ || q->cur_ || q->mem_ || q->ptr_ ||
+        q->head_.next != &q->head_ || q->head_.prev != &q->head_)
+    {
+        bad("a_que_new", (long)q->siz_, (long)(size ? size : 1));
+    }
+    return q;
 }
 
 /* returns 0 for a malformed line; *res receives the printed result */
 static int run_q(char const *op, char **t, int n, long *res)
 {
     int const s = n > 0 ? (t[0][0] == '1' || t[0][0] == 'B') : 0;
-    a_que *const q = &que[s];
+    int const alt = (int)(++opno & 1); /* every second operation through the alias macro */
+    a_que *const q = que[s];
     *res = 0;
     trace[0] = 0;
     expect_node = 0;
+    snprintf(fn_buf, sizeof(fn_buf), "a_que_%.30s", !strcmp(op, "swap_e") ? "swap_" : op);
+    cur_fn = fn_buf;
     if (!strcmp(op, "sched"))
     {
         int i;
@@ -336,14 +1003,31 @@ static int run_q(char const *op, char **t, int n, long *res)
     }
     else if (!strcmp(op, "reset") && n == 2)
     {
-        a_que_dtor(q, A_NULL);
-        a_que_ctor(q, (a_size)strtoull(t[1], A_NULL, 10));
+        a_size const z = (a_size)strtoull(t[1], A_NULL, 10);
+        long const lo = (long)q->num_, hi = (long)q->num_ + (long)q->cur_;
+        void (*const dt)(void *) = alt ? count_dtor : A_NULL;
+        dtor_calls = dtor_bad = 0;
+        if (s == 0)
+        {
+            cur_fn = "a_que_dtor";
+            a_que_dtor(q, dt);
+            a_que_ctor(q, z);
+        }
+        else
+        {
+            int const frees = struct_frees;
+            cur_fn = "a_que_die";
+            a_que_die(q, dt);
+            if (struct_frees != frees + 1 || last_struct_freed != (void *)q) { bad("a_que_die:structure-released", struct_frees - frees, 1); }
+            que[1] = new_que(z);
+        }
+        if (dt && (dtor_bad || dtor_calls < lo || dtor_calls > hi)) { bad(s ? "a_que_die:dtor-calls" : "a_que_dtor:dtor-calls", dtor_calls, lo); }
     }
     else if (!strcmp(op, "push_fore") && n == 2)
     {
         void *p;
         expect_node = 1;
-        p = a_que_push_fore(q);
+        p = alt ? (void *)A_QUE_PUSH_FORE(unsigned char, q) : a_que_push_fore(q);
         put(p, atol(t[1]));
         *res = ret_id(p);
     }
@@ -351,32 +1035,42 @@ static int run_q(char const *op, char **t, int n, long *res)
     {
         void *p;
         expect_node = 1;
-        p = a_que_push_back(q);
+        p = alt ? (void *)A_QUE_PUSH_BACK(unsigned char, q) : a_que_push_back(q);
         put(p, atol(t[1]));
         *res = ret_id(p);
     }
-    else if (!strcmp(op, "pull_fore") && n == 1) { *res = ret_id(a_que_pull_fore(q)); }
-    else if (!strcmp(op, "pull_back") && n == 1) { *res = ret_id(a_que_pull_back(q)); }
+    else if (!strcmp(op, "pull_fore") && n == 1) { *res = ret_id(alt ? (void *)A_QUE_PULL_FORE(unsigned char, q) : a_que_pull_fore(q)); }
+    else if (!strcmp(op, "pull_back") && n == 1) { *res = ret_id(alt ? (void *)A_QUE_PULL_BACK(unsigned char, q) : a_que_pull_back(q)); }
     else if (!strcmp(op, "insert") && n == 3)
     {
+        a_size const idx = (a_size)strtoull(t[1], A_NULL, 10);
         void *p;
         expect_node = 1;
-        p = a_que_insert(q, (a_size)strtoull(t[1], A_NULL, 10));
+        p = alt ? (void *)A_QUE_INSERT(unsigned char, q, idx) : a_que_insert(q, idx);
         put(p, atol(t[2]));
         *res = ret_id(p);
     }
-    else if (!strcmp(op, "remove") && n == 2) { *res = ret_id(a_que_remove(q, (a_size)strtoull(t[1], A_NULL, 10))); }
-    else if (!strcmp(op, "at") && n == 2) { *res = ret_id(a_que_at(q, (a_diff)strtoll(t[1], A_NULL, 10))); }
-    else if (!strcmp(op, "fore") && n == 1) { *res = ret_id(a_que_fore(q)); }
-    else if (!strcmp(op, "back") && n == 1) { *res = ret_id(a_que_back(q)); }
+    else if (!strcmp(op, "remove") && n == 2)
+    {
+        a_size const idx = (a_size)strtoull(t[1], A_NULL, 10);
+        *res = ret_id(alt ? (void *)A_QUE_REMOVE(unsigned char, q, idx) : a_que_remove(q, idx));
+    }
+    else if (!strcmp(op, "at") && n == 2)
+    {
+        a_diff const idx = (a_diff)strtoll(t[1], A_NULL, 10);
+        *res = ret_id(alt ? (void *)A_QUE_AT(unsigned char, q, idx) : a_que_at(q, idx));
+    }
+    else if (!strcmp(op, "fore") && n == 1) { *res = ret_id(alt ? (void *)A_QUE_FORE(unsigned char, q) : a_que_fore(q)); }
+    else if (!strcmp(op, "back") && n == 1) { *res = ret_id(alt ? (void *)A_QUE_BACK(unsigned char, q) : a_que_back(q)); }
     else if (!strcmp(op, "sort_fore") && n == 2) { a_que_sort_fore(q, t[1][0] == '1' ? cmp_small : cmp_large); }
     else if (!strcmp(op, "sort_back") && n == 2) { a_que_sort_back(q, t[1][0] == '1' ? cmp_small : cmp_large); }
     else if (!strcmp(op, "push_sort") && n == 3)
     {
         unsigned char const key = (unsigned char)atol(t[2]);
+        int (*const cmp)(void const *, void const *) = t[1][0] == '1' ? cmp_small : cmp_large;
         void *p;
         expect_node = 1;
-        p = a_que_push_sort(q, &key, t[1][0] == '1' ? cmp_small : cmp_large);
+        p = alt ? (void *)A_QUE_PUSH_SORT(unsigned char, q, &key, cmp) : a_que_push_sort(q, &key, cmp);
         put(p, key);
         *res = ret_id(p);
     }
@@ -388,7 +1082,7 @@ static int run_q(char const *op, char **t, int n, long *res)
     }
     else if (!strcmp(op, "swap") && n == 2)
     {
-        a_que_swap(&que[t[0][0] == '1' || t[0][0] == 'B'], &que[t[1][0] == '1' || t[1][0] == 'B']);
+        a_que_swap(que[t[0][0] == '1' || t[0][0] == 'B'], que[t[1][0] == '1' || t[1][0] == 'B']);
     }
     else if (!strcmp(op, "drop") && n == 1) { *res = a_que_drop(q, A_NULL); }
     else if (!strcmp(op, "setz") && n == 2) { *res = a_que_setz(q, (a_size)strtoull(t[1], A_NULL, 10), A_NULL); }
@@ -396,23 +1090,93 @@ static int run_q(char const *op, char **t, int n, long *res)
     return 1;
 }
 
+/* A_QUE_FOREACH / A_QUE_FOREACH_REVERSE / a_que_foreach(_reverse) while the body removes the visited element */
+static void selftest_q(void)
+{
+    int k, i;
+    for (k = 0; k < 4; ++k)
+    {
+        int seen[8], n = 0, okseq = 1;
+        unsigned char *it_, *at_;
+        a_que *const q = que[0];
+        int f[8], nf = 0;
+        for (i = 1; i <= 3; ++i)
+        {
+            expect_node = 1;
+            put(a_que_push_back(q), i);
+            expect_node = 0;
+        }
+        /* a push that does not build the ring 1-2-3 is judged by the histories, not here */
+        if (!walk(q, 1, f, &nf) || nf != 3) { break; }
+        for (i = 0; i < 3; ++i)
+        {
+            a_list *const p = qptr(f[i]);
+            if (!p || *(unsigned char *)(p + 1) != i + 1) { nf = 0; }
+        }
+        if (nf != 3) { break; }
+#define T_BODY(it)                                        \
+    if (n >= 6) { break; }                                \
+    seen[n++] = *it;                                      \
+    if (a_que_remove(q, k < 2 ? 0 : a_que_num(q) - 1) != (void *)it) { okseq = 0; }
+        switch (k)
+        {
+        case 0:
+            a_que_foreach(unsigned char, *, it, q) { T_BODY(it) }
+            break;
+        case 1:
+            A_QUE_FOREACH(unsigned char *, it_, at_, q) { T_BODY(it_) }
+            break;
+        case 2:
+            a_que_foreach_reverse(unsigned char, *, it, q) { T_BODY(it) }
+            break;
+        default:
+            A_QUE_FOREACH_REVERSE(unsigned char *, it_, at_, q) { T_BODY(it_) }
+            break;
+        }
+#undef T_BODY
+        for (i = 0; i < 3; ++i)
+        {
+            if (n != 3 || seen[i] != (k < 2 ? i + 1 : 3 - i)) { okseq = 0; }
+        }
+        if (!okseq || a_que_num(q)) { bad(qmacro[k], -n, 3); }
+    }
+    /* leave no trace: the scratch elements are given back, names start at 3 again */
+    a_que_dtor(que[0], A_NULL);
+    a_que_ctor(que[0], 8);
+}
+
 static void q_begin(void)
 {
+    int i;
+    a_que *p;
     if (que_live)
     {
-        /* give everything back; blocks that are no longer reachable after a defect are freed by name */
-        int i;
+        /* give everything back by name: blocks that are no longer reachable after a defect included */
         for (i = 0; i < nblk; ++i) { free(blk[i].addr); }
-        free((void *)que[0].ptr_);
-        if (que[1].ptr_ != que[0].ptr_) { free((void *)que[1].ptr_); }
+        for (i = 0; i < nparr; ++i) { free(parr[i]); }
+        for (i = 0; i < nsblk; ++i) { free(sblk[i]); }
     }
-    nblk = 0;
+    nblk = nparr = nsblk = 0;
     next_id = 3;
     nsched = isched = 0;
     trace[0] = 0;
-    a_que_ctor(&que[0], 8);
-    a_que_ctor(&que[1], 8);
+    opno = 0;
+    cur_fn = "a_que_new";
+    /* a refused request for the structure: a_que_new must return NULL; a_que_die(NULL) must do nothing */
+    force_fail = 1;
+    expect_struct = 1;
+    p = a_que_new(8);
+    expect_struct = 0;
+    force_fail = 0;
+    if (p) { bad("a_que_new:refused", 1, 0); }
+    a_que_die(A_NULL, A_NULL);
+    que[0] = &que0;
+    a_que_ctor(que[0], 8);
+    que[1] = new_que(8);
     que_live = 1;
+    selftest_q();
+    next_id = 3;
+    trace[0] = 0;
 }
 
 int main(void)
@@ -421,6 +1185,7 @@ int main(void)
     char mode = 0;
     int dead = 0;
     a_alloc = shim;
+    que[0] = que[1] = &que0;
     if (getenv("C05_FLUSH")) { setvbuf(stdout, A_NULL, _IOLBF, 0); }
     while (fgets(line, sizeof(line), stdin))
     {
@@ -437,15 +1202,17 @@ int main(void)
             (void)putchar('\n');
             continue;
         }
+        acc[0] = 0;
         if (!strcmp(tok[0], "L") && nt == 2)
         {
             mode = 'L';
             dead = 0;
             ln = atoi(tok[1]);
             if (ln > MAXN) { ln = MAXN; }
-            for (i = 1; i <= ln; ++i) { a_list_ctor(&lnode[i]); }
+            if (ln < 0) { ln = 0; }
+            begin_l();
             (void)putchar('L');
-            dump_l();
+            dump_l(1);
             continue;
         }
         if (!strcmp(tok[0], "S") && nt == 2)
@@ -454,9 +1221,8 @@ int main(void)
             dead = 0;
             sn = atoi(tok[1]);
             if (sn > MAXN) { sn = MAXN; }
-            a_slist_ctor(&slist[1]);
-            a_slist_ctor(&slist[2]);
-            for (i = 3; i <= sn + 2; ++i) { snode[i].next = A_NULL; }
+            if (sn < 0) { sn = 0; }
+            begin_s();
             (void)putchar('S');
             dump_s();
             continue;
@@ -482,7 +1248,7 @@ int main(void)
             if (mode == 'L' ? run_l(tok[0], a, n) : run_s(tok[0], a, n))
             {
                 printf("ok");
-                if (mode == 'L') { dump_l(); }
+                if (mode == 'L') { dump_l(n ? a[0] : 0); }
                 else { dump_s(); }
             }
             else
